@@ -346,10 +346,13 @@ def _get_centering_constraint_from_matrix(matrix: numpy.ndarray) -> numpy.ndarra
     We can rewrite this as `numpy.dot(c, b)` being zero with `c` a 1-row
     constraint matrix containing the mean of each column of `matrix`.
 
+    Rows belonging to null observations are entirely NaN; they do not carry
+    the spline and so must not contribute to the column means.
+
     Args:
         matrix: The 2-d array design matrix.
     """
-    return matrix.mean(axis=0).reshape((1, matrix.shape[1]))
+    return numpy.nanmean(matrix, axis=0).reshape((1, matrix.shape[1]))
 
 
 def _absorb_constraints(
